@@ -59,6 +59,35 @@ def finding_key(suite, ops, line, msg):
     return "C16:%s:%s" % (kind, cls)
 
 
+
+CLAUSES = {
+    "never more entries than capacity": "sieve_inv (queue.length <= sieveCap c, for every capacity incl. <= 0 which the constructor clamps to 1) and nemap_inv "
+                                        "(store.length <= max c 0), for every operation history; concurrent: follows for every reachable state of the lock-level LTS "
+                                        "from sieve_linearizable / nemap_linearizable (each state is the sequential state after the linearized history)",
+    "one entry per key": "sieve_inv ((keys queue).Nodup), nemap_inv ((skeys store).Nodup)",
+    "a lookup is a miss or the most recent completed put for that key that has not been deleted; never another key's, a superseded or a deleted value": "sieve_refines_map, nemap_refines_map (acceptsTrace against the ideal map, for every history and capacity); "
+        "sieve_put_then_get rules out the degenerate always-miss cache",
+    "eviction terminates": "sieve_evict_terminates (the clock sweep finds a victim within 2 * length steps; the Go loop is unbounded, the model's fuel is proved sufficient)",
+    "size statistic equals the number of stored entries": "sieve_inv (size = queue.length), nemap_inv (size = store.length); combined_stats_exact for Stats.Combined; "
+        "concurrent histories: the Lean monitor requires size = number of entries still observable after the history",
+    "under any number of concurrent callers every completed operation is consistent with some sequential order (linearizable up to eviction)": "Dawgs.RW.linearizable instantiated as sieve_linearizable / nemap_linearizable over the RW-lock LTS with sieve_lawful / nemap_lawful "
+        "(writers exclusive, readers only perform atomic effects that commute), for any number of threads and any schedule",
+    "no deadlock": "sieve_deadlock_free / nemap_deadlock_free (Dawgs.RW.progress: every non-final state has an enabled step)",
+    "no data race": "searched only: the lock skeleton (Put/Delete under Lock, Get under RLock with atomic effects only, helpers reached only from writers) is extracted from cache/*.go "
+                    "and checked by decide (lock_skeleton_ok); Go-memory-model races outside that skeleton are covered by the -race run of the concurrent suite in the thorough tier",
+    "no panic": "searched only (tie): exhaustive op sequences up to length 4/5 and random histories on the real code; the model is total, the tie compares internal state "
+                "(queue, visited bits, hand) after every op, so a dangling hand shows as a disagreement before it panics",
+    "searched only (tie)": "that the Lean transcription is what cache/sieve.go, cache/nemap.go and cache/cache.go do (line-protocol diff incl. internal state through the "
+                           "verif-tagged VerifDump hook); container/list, Go map, sync.RWMutex, sync/atomic semantics; real concurrent histories (2-4 goroutines random, "
+                           "4-8 goroutines contention bursts) judged by the Lean linearizability checker",
+    "named assumptions": "keys and values are small non-negative ints in the tie (the Go code is generic); the lock-level LTS abstracts each critical section to one atomic step "
+                         "(justified by the extracted lock skeleton)",
+}
+
+
+def extra_coverage(ctx, stats):
+    return {"clause_map": CLAUSES}
+
 SPEC = {
     "id": "C16",
     "title": "caches bounded, coherent, safe under concurrency",
@@ -71,6 +100,7 @@ SPEC = {
     "suites": [{"name": "c16", "model_suite": "c16", "monitor_suite": "c16mon", "keep_prefix": 2, "thorough_seeds": 1},
                {"name": "c16conc", "monitor_suite": "c16lin", "keep_prefix": 1, "race_in_thorough": True, "shrink_budget": 5}],
     "nontrivial": nontrivial,
+    "extra_coverage": extra_coverage,
     "finding_key": finding_key,
     "rule": "sequential cases = exhaustive op sequences (len<=4 quick / <=5 thorough) over a 7-9 letter alphabet x capacities x {sieve,nemap}, plus random "
             "histories (5-65 ops, keys ~ capacity+1..3) from splitmix64(VERIF_SEED); a case is non-trivial when, after a put, it observes both "
